@@ -53,7 +53,7 @@ class WorldC01(World):
     STATE_CHANGING = ('mkmode', 'mkspecies', 'edit', 'swap')
     STATE_RULE = 'per species: (mode classes in its five slots, modes shared with another species, edits since construction bucket)'
     PROBES = ('edit-imaginary-substitute', 'edit-wavenumbers', 'edit-wavenumbers-in-place', 'integer-wavenumbers', 'edit-spin', 'edit-qrrho-parameter', 'mode-shared-by-two-species', 'constant-mode-additivity-only', 'lsr-electronic-mode', 'textbook-harmonic-q-both-zeros', 'option-through-species', 'rot-temperatures-as-array', 'conditions-in-a-reused-dictionary',
-              'mutator-raised-part-way', 'integer-temperature', 'rot-temperatures-from-moments', 'species-with-misc-models',
+              'mutator-raised-part-way', 'integer-temperature', 'rot-temperatures-from-moments', 'species-with-misc-models', 'dimensional-getters',
               'swap-mode', 'imaginary-mode-present', 'monatomic-rotor', 'linear-rotor', 'trans-1-or-2-dof', 'point-group-label',
               'debye-mode', 'einstein-mode', 'qrrho-mode', 'low-T-regime', 'high-T-regime', 'verbose-sum', 'pressure-shift',
               'textbook-harmonic', 'textbook-trans', 'textbook-rotor', 'textbook-elec', 'textbook-einstein', 'textbook-debye-Cv', 'textbook-qrrho', 'geometry-rigid-motion')
@@ -400,6 +400,30 @@ class WorldC01(World):
         if kinds['elec'] == 'LSR':
             ctx.probe('lsr-electronic-mode')
         if full:
+            # the same values in units: x R (heat capacities, entropy) or x R T (energies), and G = H - T S there as well
+            dim = {}
+            unit = ('kJ/mol', 'kcal/mol', 'J/mol', 'eV/molecule')[int(T) % 4]
+            for q, nm_ in (('CvoR', 'Cv'), ('CpoR', 'Cp'), ('UoRT', 'U'), ('HoRT', 'H'), ('SoR', 'S'), ('FoRT', 'F'), ('GoRT', 'G')):
+                per_K = nm_ in ('Cv', 'Cp', 'S')
+                try:
+                    Rv = self.c.R((unit if unit != 'eV/molecule' else 'eV') + '/K')
+                except KeyError:
+                    break
+                u_arg = (unit if unit != 'eV/molecule' else 'eV') + '/K' if per_K else unit
+                if unit == 'eV/molecule' and not per_K:
+                    u_arg = 'eV/molecule'
+                try:
+                    d_ = float(self.real(_call, getattr(sp, 'get_' + nm_), T=T, P=P, units=u_arg,
+                                         _what='get_%s(units=%r)' % (nm_, u_arg), _allowed=(KeyError,)))
+                except KeyError:
+                    break                   # (a unit string the constants table does not know: not C01's subject)
+                w_ = v[q] * Rv * (1.0 if per_K else T)
+                if abs(d_ - w_) > 1e-10 * max(abs(Rv) * (1.0 if per_K else T), abs(w_)):
+                    raise Violation('units-times-R', '%s: get_%s(units=%r, T=%r) = %r; the dimensionless value x R%s = %r' % (
+                        what, nm_, u_arg, T, d_, '' if per_K else ' T', w_))
+                dim[nm_] = d_
+            else:
+                ctx.probe('dimensional-getters')
             # options that only say what to do about a mode lacking the getter change nothing when none lacks it
             for q in QS:
                 v2 = float(self.real(_call, getattr(sp, 'get_' + q), T=T, P=P, raise_error=False, raise_warning=False,
